@@ -567,6 +567,9 @@ class Interp:
 
     def e_Yield(self, node: ast.Yield, fr: Frame) -> AV:
         v = self.eval(node.value, fr) if node.value else NONE
+        cb = self.hooks.get("__on_yield__")
+        if cb is not None:
+            cb(self, v, fr, node)
         self.emit(Ev("yield", value=v, site=self.site(node, fr)))
         return NONE
 
@@ -1181,6 +1184,9 @@ class Interp:
         once = self.hooks.get("__while_once__", ())
         if fr.fi is not None and fr.fi.qualname in once:
             # analyse ONE generic iteration of this loop: the state at its end is the result
+            cbh = self.hooks.get("__while_head__")
+            if cbh is not None:
+                cbh(self, fr, st)
             if not self.truth(self.eval(st.test, fr), st.test):
                 self.exec_block(st.orelse, fr)
                 return
@@ -1190,6 +1196,9 @@ class Interp:
                 return
             except _Continue:
                 pass
+            cbt = self.hooks.get("__while_tail__")
+            if cbt is not None:
+                cbt(self, fr, st)
             raise _Return(Term("loop-continues", (dict(fr.locals),), self.ctx.new_id()))
         if self._scan_run_idiom(st, fr):
             return
